@@ -45,7 +45,7 @@ def classify(mod, known, case, faults, msgs):
     return None
 
 
-def _worker(span):
+def _worker(span, skip=(), progress=None):
     lo, hi, selfcheck, stride = span
     mod, tier, cases, known = _STATE['mod'], _STATE['tier'], _STATE['cases'], _STATE['known']
     from . import run as vrun
@@ -60,6 +60,11 @@ def _worker(span):
     signal.signal(signal.SIGALRM, on_alarm)
     for i in range(lo, hi, stride):
         case = cases[i]
+        if i in skip:
+            rep['cases'] += 1         # (the interpreter died on this case before: reported by the driver)
+            continue
+        if progress is not None:
+            progress[0][progress[1]] = i
         signal.alarm(CASE_TIMEOUT)
         try:
             r = mod.explore_case(case, tier)
@@ -89,6 +94,8 @@ def _worker(span):
         # proof of owned nondeterminism: re-run the first cases, demand identical reports
         bad = 0
         for i in range(lo, min(hi, lo + selfcheck * stride), stride):
+            if i in skip:
+                continue
             a = ADDR.sub('#', json.dumps(mod.explore_case(cases[i], tier), sort_keys=True, default=repr))
             b = ADDR.sub('#', json.dumps(mod.explore_case(cases[i], tier), sort_keys=True, default=repr))
             if a != b:
@@ -100,6 +107,82 @@ def _worker(span):
     rep['states'] = list(rep['states'])
     rep['transitions'] = list(rep['transitions'])
     return rep
+
+
+def _proc_main(wid, task_q, result_q, progress):
+    """one explorer process: takes spans until it is terminated"""
+    import traceback
+    while True:
+        span, skip = task_q.get()
+        result_q.put(('start', wid, span, list(skip)))
+        try:
+            r = _worker(tuple(span), skip=frozenset(skip), progress=(progress, wid))
+            progress[wid] = -1
+            result_q.put(('ok', wid, span, r))
+        except BaseException as e:      # noqa
+            progress[wid] = -1
+            result_q.put(('err', wid, span, '%r\n%s' % (e, traceback.format_exc())))
+
+
+def explore_spans(order, workers):
+    """Run the spans in `workers` forked processes. A process that dies (the interpreter aborts, e.g. out of memory inside one
+    activation) does not take the run with it: the case it was exploring is reported as a violation of its own, the rest of
+    its span is explored by a fresh process."""
+    import queue as _queue
+    ctx = multiprocessing.get_context('fork')
+    task_q, result_q = ctx.Queue(), ctx.Queue()
+    progress = ctx.Array('q', [-1] * workers, lock=False)
+    for sp in order:
+        task_q.put((list(sp), []))
+    procs = {}
+
+    def spawn(wid):
+        p = ctx.Process(target=_proc_main, args=(wid, task_q, result_q, progress), daemon=True)
+        p.start()
+        procs[wid] = p
+    for wid in range(workers):
+        spawn(wid)
+    outstanding = len(order)
+    holding = {}            # wid -> span it is working on
+    reports, crashes, errors = [], [], []
+    try:
+        while outstanding:
+            try:
+                kind, wid, span, payload = result_q.get(timeout=0.5)
+            except _queue.Empty:
+                for wid, p in list(procs.items()):
+                    if p.exitcode is not None and wid in holding:
+                        span, skip = holding.pop(wid)
+                        i = progress[wid]
+                        progress[wid] = -1
+                        if i < 0:
+                            errors.append('explorer process %d died (exit code %r) outside any case' % (wid, p.exitcode))
+                            outstanding -= 1
+                        else:
+                            crashes.append((i, p.exitcode))
+                            if len(crashes) >= MAX_VIOLATIONS:
+                                return reports, crashes, errors
+                            task_q.put((span, sorted(set(skip) | {i})))
+                        spawn(wid)
+                    elif p.exitcode is not None:
+                        spawn(wid)
+                continue
+            if kind == 'start':
+                holding[wid] = (span, payload)       # payload: the cases of this span that are skipped already
+                continue
+            holding.pop(wid, None)
+            outstanding -= 1
+            if kind == 'ok':
+                reports.append(payload)
+            else:
+                errors.append('explorer process failed on span %r: %s' % (span, payload))
+    finally:
+        for p in procs.values():
+            if p.is_alive():
+                p.terminate()
+        for p in procs.values():
+            p.join(timeout=5)
+    return reports, crashes, errors
 
 
 def case_hash(case, faults):
@@ -145,12 +228,18 @@ def run_check(modname, tier, seed):
              'known': collections.Counter(), 'counters': collections.Counter(), 'cases': 0,
              'states': set(), 'transitions': set()}
     selfcheck_bad = None
+    crashes = []
     if workers > 1 and n > 1:
-        ctx = multiprocessing.get_context('fork')
-        with ctx.Pool(workers) as pool:
-            reports = list(pool.imap_unordered(_worker, [tuple(s) for s in order]))
+        reports, crashes, errs = explore_spans(order, workers)
+        if errs:
+            for e in errs:
+                print('HARNESS-ERROR: ' + e[:2000])
+            return 2
     else:
         reports = [_worker(tuple(s)) for s in order]
+    for i, code in crashes:
+        total['viol'].append({'index': i, 'case': cases[i], 'faults': {'crash': code},
+                              'msgs': ['the interpreter died (exit code %r) while this case was explored' % (code,)]})
     for rep in reports:
         total['execs'] += rep['execs']
         total['nontrivial'] += rep['nontrivial']
@@ -163,7 +252,7 @@ def run_check(modname, tier, seed):
         total['transitions'].update(map(tuple, rep['transitions']) if rep['transitions'] and isinstance(rep['transitions'][0], list) else rep['transitions'])
         if rep['selfcheck'] is not None:
             selfcheck_bad = rep['selfcheck']
-    if total['cases'] != n:
+    if total['cases'] != n and len(crashes) < MAX_VIOLATIONS:
         print('HARNESS-ERROR: explored %d of %d cases' % (total['cases'], n))
         return 2
     if selfcheck_bad:
@@ -251,7 +340,22 @@ def replay_file(path):
     data = json.load(open(path))
     mod = importlib.import_module('vk.checks.' + data['check'])
     vrun.setup_process()
-    msgs = mod.replay(data['case'], data['faults'])
+    if isinstance(data['faults'], dict) and 'crash' in data['faults']:
+        # the interpreter died while this case was explored: explore it again in a child process of its own
+        ctx = multiprocessing.get_context('fork')
+
+        def child():
+            r = mod.explore_case(data['case'], data.get('tier', 'quick'))
+            os._exit(1 if r['viol'] else 0)
+        p = ctx.Process(target=child)
+        p.start()
+        p.join(CASE_TIMEOUT * 2)
+        if p.is_alive():
+            p.kill()
+            p.join()
+        msgs = [] if p.exitcode == 0 else ['exploring this case ended the interpreter / reported a violation (exit code %r)' % (p.exitcode,)]
+    else:
+        msgs = mod.replay(data['case'], data['faults'])
     for m in msgs:
         print(str(m)[:500])
     if msgs:
